@@ -18,8 +18,8 @@ t=$(cd $wt && go test -count=1 ./... 2>&1 | grep -c "^FAIL\|^---")
 echo "repo tests failing lines: $t"
 (cd $wt && go build -o /tmp/seedv/bin.$$.mut ./cmd/calc)
 if [ -f $out/demo$n.calc ]; then
-  echo "--- demo WITHOUT the change:"; timeout 60 /tmp/seedv/bin.$$.orig $out/demo$n.calc 2>&1 | head -${LINES_MAX:-12}
-  echo "--- demo WITH the change:"; timeout 60 /tmp/seedv/bin.$$.mut $out/demo$n.calc 2>&1 | head -${LINES_MAX:-12}
+  echo "--- demo WITHOUT the change:"; timeout 900 /tmp/seedv/bin.$$.orig $out/demo$n.calc 2>&1 | head -${LINES_MAX:-12}
+  echo "--- demo WITH the change:"; timeout 900 /tmp/seedv/bin.$$.mut $out/demo$n.calc 2>&1 | head -${LINES_MAX:-12}
 elif ls $out/demo${n}_test.go >/dev/null 2>&1 || ls $out/demo$n.go >/dev/null 2>&1; then
   echo "(Go demo: see demo$n.txt)"; sed -n 1,25p $out/demo$n.txt
 fi
